@@ -10,7 +10,7 @@ exact VertexDict keys) versus splipy.splinemodel on
 The implementation gets tolerance-level noise on every control point (independently per patch), the
 model the exact nets: agreement therefore also states insensitivity to such perturbations.
 
-Known-finding classes (`classify`; all three reproduce on the pinned tree, minimal inputs in
+Known-finding classes (`classify`; all three reproduce on the snapshot 271dc65, minimal inputs in
 corpus/C17/000-known-defect-reproducers.json):
   nodeview-section-wrong-frame        (FIXED by 8e83d07; label kept so that a regression is reported by name)
                                       the snapshot's NodeView.section computed `self.node.obj.section(*section)` with the
